@@ -27,7 +27,8 @@ class FnSpec:
         self.name = name; self.when = when; self.src = src
         self.requires = []; self.ensures = []; self.assigns = []; self.frees = []
         self.loops = {}      # k -> {'invariant': [Clause], 'assigns': [str], 'decreases': str}
-        self.replace = []; self.flags = []; self.level = 'L2'; self.harness = None
+        self.replace = []; self.flags = []; self.level = 'L2'; self.harness = None; self.timeout = None
+        self.cases = []      # [(name, C condition over the harness variables)]
         self.notes = []
 
 TAGRE = re.compile(r'^\[([A-Za-z0-9_, ]+)\]\s*')
@@ -127,6 +128,11 @@ def parse_file(path):
             cur.flags.extend(rest.split())
         elif kw == 'level':
             cur.level = rest
+        elif kw == 'timeout':
+            cur.timeout = int(rest)
+        elif kw == 'case':
+            nm, _, cond = rest.partition(':')
+            cur.cases.append((nm.strip(), cond.strip()))
         elif kw == 'note':
             cur.notes.append(rest)
         else:
